@@ -223,7 +223,7 @@ fn debug_key(dec: &Decoder) -> String {
     }
 }
 
-fn real_frompw(f: &DictFields, id0: &[u8], pass: &[u8], pid: u64, pgen: u64, pdata: &[u8]) -> String {
+pub fn real_frompw(f: &DictFields, id0: &[u8], pass: &[u8], pid: u64, pgen: u64, pdata: &[u8]) -> String {
     let r = catch_unwind(AssertUnwindSafe(|| {
         let prim = match dict_primitive(f) {
             Ok(p) => p,
@@ -504,18 +504,18 @@ pub fn run(driver: &Driver, rep: &mut Report, seed: u64, thorough: bool) {
         rep.notes.push(format!("timing: {} done at {:.1}s", what, t0.elapsed().as_secs_f64()));
     };
     let mut prim_or = Oracle::new("c06.primitives");
-    let (a, b) = rc4_streams(driver, seed, if thorough { 20_000 } else { 600 }, &mut prim_or);
+    let (a, b) = rc4_streams(driver, seed, if thorough { 40_000 } else { 1500 }, &mut prim_or);
     rep.streams.push(a);
     rep.streams.push(b);
     rep.oracles.push(prim_or);
     lap(rep, "rc4", &t0);
-    rep.streams.extend(decrypt_streams(driver, seed, if thorough { 30_000 } else { 1200 }));
+    rep.streams.extend(decrypt_streams(driver, seed, if thorough { 60_000 } else { 2800 }));
     lap(rep, "decrypt", &t0);
-    rep.streams.push(frompw_stream(driver, seed, if thorough { 6000 } else { 330 }));
+    rep.streams.push(frompw_stream(driver, seed, if thorough { 12_000 } else { 840 }));
     lap(rep, "frompw", &t0);
-    rep.streams.push(frompw_outside(driver, seed, if thorough { 6000 } else { 300 }));
+    rep.streams.push(frompw_outside(driver, seed, if thorough { 12_000 } else { 600 }));
     lap(rep, "frompw.outside", &t0);
-    rep.streams.push(doc_stream(driver, seed, 0, if thorough { 3000 } else { 120 }));
+    rep.streams.push(doc_stream(driver, seed, 0, if thorough { 6000 } else { 300 }));
     lap(rep, "doc", &t0);
 }
 
